@@ -225,3 +225,18 @@ func specIsCtl(m hsms.Message) bool {
 //@ ensures [notsel] specIsCtl(msg) && specCtlHeader(msg)[5] == 3 && zzRet[hsms.ConnState]("hsms.(TransportRuntime).State") != hsms.SelectedState ==>
 //@                  zzCalls("hsms.(TransportRuntime).SendAsync") == 1 && zzCalls("hsms.(TransportRuntime).SelectLost") == 0 && specSentIsControl() &&
 //@                  specSentHeader() == specHdr(uint16(specCtlHeader(msg)[0])<<8|uint16(specCtlHeader(msg)[1]), 0, 1, 0, 4, [4]byte{specCtlHeader(msg)[6], specCtlHeader(msg)[7], specCtlHeader(msg)[8], specCtlHeader(msg)[9]})
+
+//@ func decodeControlFrame
+//@ requires len(frame) >= 10
+//@ ensures [ok]  len(frame) == 10 && frame[4] == 0 && frame[5] != 0 && (frame[5] <= 7 || frame[5] == 9) ==>
+//@               result1 == nil && specIsCtl(result0) && specCtlHeader(result0) == [10]byte(frame[0:10])
+//@ ensures [nil] result1 != nil ==> result0 == nil
+
+//@ func (*transport).handleControlReq
+//@ nosafety nil-deref nil-iface
+//@ requires t != nil && msg != nil && specIsCtl(msg)
+//@ emits hsmsss.(*transport).handleSelectReq, hsmsss.(*transport).handleLinktestReq, hsmsss.(*transport).handleDeselectReq, hsms.(TransportRuntime).SendAsync, hsms.(TransportRuntime).TCPDown, hsms.(TransportRuntime).DeliverOwnedFrame, hsms.(TransportRuntime).State, hsms.(TransportRuntime).SelectLost, hsms.(TransportRuntime).CommitSelected
+//@ ensures [select]   specCtlHeader(msg)[5] == 1 ==> zzCalls("hsmsss.(*transport).handleSelectReq") == 1 && zzCalls("hsmsss.(*transport).handleLinktestReq") == 0 && zzCalls("hsmsss.(*transport).handleDeselectReq") == 0
+//@ ensures [deselect] specCtlHeader(msg)[5] == 3 ==> zzCalls("hsmsss.(*transport).handleDeselectReq") == 1 && zzCalls("hsmsss.(*transport).handleSelectReq") == 0 && zzCalls("hsmsss.(*transport).handleLinktestReq") == 0
+//@ ensures [linktest] specCtlHeader(msg)[5] == 5 ==> zzCalls("hsmsss.(*transport).handleLinktestReq") == 1 && zzCalls("hsmsss.(*transport).handleSelectReq") == 0 && zzCalls("hsmsss.(*transport).handleDeselectReq") == 0
+//@ ensures [never]    zzCalls("hsms.(TransportRuntime).TCPDown") == 0 && zzCalls("hsms.(TransportRuntime).DeliverOwnedFrame") == 0
